@@ -87,13 +87,14 @@ type vRevClientStream struct { // grpc.BidiStreamingClient[ServerToClient, Clien
 	hungUp     bool
 	late       []*tunnelpb.ClientToServer // frames that were already in transit when this side half-closed
 	latePos    int
+	slowPeer   bool // the peer does not hang up at once when this side half-closes (the harness says when)
 }
 
 func (s *vRevClientStream) Header() (metadata.MD, error) { return s.hdr, s.hdrErr }
 func (s *vRevClientStream) Trailer() metadata.MD         { return nil }
 func (s *vRevClientStream) CloseSend() error {
 	s.closeSends++
-	if s.closeSends == 1 && s.hold {
+	if s.closeSends == 1 && s.hold && !s.slowPeer {
 		s.hangUp() // half-closing makes the peer's handler return, which ends Recv
 	}
 	return nil
@@ -296,8 +297,38 @@ func verifH_StopStates() {
 	verifDrain() // every Serve call is now parked in Recv
 	stopReturned, gracefulReturned := false, false
 	idleWait := false
-	op := verifChoice("op", 4)
+	op := verifChoice("op", 6)
 	switch op {
+	case 4, 5:
+		// a second call of the same operation while the first one is still waiting for the tunnels: it is
+		// the same promise - it returns only once every Serve call has returned (op 4 GracefulStop, op 5 Stop
+		// over tunnels whose peers take their time to react to the half-close)
+		first, second := false, false
+		call := srv.GracefulStop
+		if op == 5 {
+			call = srv.Stop
+			for _, s := range streams {
+				s.slowPeer = true
+			}
+		}
+		verifGo("first", func() { call(); first = true })
+		verifDrain()
+		verifGo("second", func() { call(); second = true })
+		verifDrain()
+		if k > 0 {
+			verifCover("second-call-while-waiting")
+			verifAssert(!first && !second, "C04+C10.a-second-stop-or-graceful-stop-also-waits-for-every-serve")
+		}
+		for _, s := range streams {
+			s.hangUp()
+		}
+		verifDrain()
+		verifAssert(first && second, "C04+C10.both-calls-return-once-the-tunnels-are-gone")
+		if op == 5 {
+			stopReturned = true
+		} else {
+			gracefulReturned = true
+		}
 	case 3:
 		// GracefulStop is waiting for in-flight tunnels (another goroutine); Stop cuts them
 		verifGo("graceful", func() {
